@@ -69,6 +69,12 @@ type SpecFn struct {
 	Line   int
 }
 
+type UFun struct {
+	Name string
+	Args []string
+	Res  string
+}
+
 type World struct {
 	Repo      string
 	Tags      string
@@ -77,6 +83,7 @@ type World struct {
 	SSAPkgs   map[string]*ssa.Package
 	Contracts map[string]*Contract // key: pkgpath.Func
 	Specs     map[string]*SpecFn
+	UFuns     map[string]*UFun
 	ByFn      map[*ssa.Function]*Contract
 	Fset      *token.FileSet
 }
@@ -153,6 +160,22 @@ func parseContractText(w *World, pkgPath, file string, src []byte) error {
 			w.Contracts[key] = c
 			cur = c
 			counters = map[string]int{}
+			continue
+		}
+		if strings.HasPrefix(t, "ufun ") {
+			// ufun name(Sort, Sort) Sort   -- uninterpreted function
+			rest := strings.TrimSpace(t[5:])
+			lp := strings.Index(rest, "(")
+			rp := strings.LastIndex(rest, ")")
+			if lp < 0 || rp < lp {
+				return fmt.Errorf("%s:%d: bad ufun declaration", file, l.no)
+			}
+			name := strings.TrimSpace(rest[:lp])
+			var sorts []string
+			for _, p := range splitTopLevel(rest[lp+1 : rp]) {
+				sorts = append(sorts, p)
+			}
+			w.UFuns[name] = &UFun{Name: name, Args: sorts, Res: strings.TrimSpace(rest[rp+1:])}
 			continue
 		}
 		if strings.HasPrefix(t, "spec ") {
@@ -252,7 +275,7 @@ func contractFiles(repo string) []string {
 }
 
 func LoadContracts(repo string, extra []string) (*World, error) {
-	w := &World{Repo: repo, Contracts: map[string]*Contract{}, Specs: map[string]*SpecFn{}, ByFn: map[*ssa.Function]*Contract{}}
+	w := &World{Repo: repo, Contracts: map[string]*Contract{}, Specs: map[string]*SpecFn{}, UFuns: map[string]*UFun{}, ByFn: map[*ssa.Function]*Contract{}}
 	for _, f := range contractFiles(repo) {
 		src, err := os.ReadFile(f)
 		if err != nil {
